@@ -77,6 +77,36 @@ def main(run, args):
             else:
                 g.round(app=False)
         scripts.append(g.script())
+    # directed: a whole aligned block of leaves (a subtree) is removed and FEWER members are added by
+    # the same commit, so the joiners' direct paths run over nodes whose copath subtree is blank
+    # (filtered nodes) below, at and above the common ancestor with the committer; then members all
+    # over the tree commit with a path and everybody, the joiners included, must follow
+    for i in range(8 if quick else 60):
+        n = rng.choice([8, 9, 12, 16])
+        g = HistGen(rng, n_pool=n + 4, name=f"c09-block-{i}")
+        g.start()
+        g.round(app=False, n_props=0, by_value_adds=n - 1, by_value_removes=0, path_required=rng.chance(1, 2), echo=False)
+        order = list(g.in_group)                       # leaf k holds order[k]
+        if i % 2 == 0:
+            size = rng.choice([2, 2, 4])
+            starts = [b for b in range(0, n - size, size)]
+            b = rng.choice(starts)
+            block = list(range(b, b + size))
+            cidx = rng.choice([k for k in range(n) if k not in block])
+            g.round_explicit(order[cidx], n_adds=1 + rng.below(size - 1) if size > 2 else 1, remove_names=[order[k] for k in block], tree_ext=rng.chance(1, 2))
+        else:
+            # the committer's sibling leaf and the neighbouring pair go, one member comes: the joiner sits
+            # next to the committer and the blank pair is the copath of a node ABOVE their common ancestor
+            q = rng.below((n - 1) // 4 if (n - 1) // 4 > 0 else 1)
+            cidx = 4 * q + rng.below(2)
+            gone = [cidx ^ 1, 4 * q + 2, 4 * q + 3]
+            gone = [k for k in gone if k < n]
+            g.round_explicit(order[cidx], n_adds=1, remove_names=[order[k] for k in gone], tree_ext=rng.chance(1, 2))
+        for _ in range(3 if quick else 5):
+            g.round_explicit(rng.choice(g.in_group), n_adds=0, remove_names=[])
+        # the member on the far right and a joiner commit too
+        g.round_explicit(g.in_group[-1], n_adds=0, remove_names=[])
+        scripts.append(g.script())
     recs = run_scripts(scripts, timeout=2400)
     failing = []
     cases = []
@@ -145,7 +175,7 @@ def main(run, args):
                                       dict(ctx, member=n, leaf=me, role="joiner", held_after=[x is not None for x in o["priv"]], new_tree=after_tree)))
     mism = []
     coq_cases = 0
-    if proofs_ok:
+    if model_ready(proofs_ok):
         nsh = 16
         shards = [cases[i::nsh] for i in range(nsh) if cases[i::nsh]]
 
